@@ -79,12 +79,12 @@ Section NI.
   Definition data_edge (pr : prog) (r x : N) : Prop :=
     exists pc rs f obs nx, pr pc = IAssign x rs f obs nx /\ In r rs.
 
-  (* names whose value is observed: reads of branches and of observable instructions, and the
-     target of an observable assignment *)
+  (* names whose value is observed: reads of branches and of observable emits, and the target
+     of an observable assignment (what such an assignment reads reaches its target by a data edge) *)
   Definition required_sink (pr : prog) (s : N) : Prop :=
     (exists pc rs c pt pf, pr pc = IBranch rs c pt pf /\ In s rs) \/
     (exists pc rs nx, pr pc = IEmit rs true nx /\ In s rs) \/
-    (exists pc x rs f nx, pr pc = IAssign x rs f true nx /\ (s = x \/ In s rs)).
+    (exists pc rs f nx, pr pc = IAssign s rs f true nx).
 
   (* the names from which a sink is reachable in the taint relation *)
   Definition Rel (T : N -> N -> Prop) (S : N -> Prop) (x : N) : Prop :=
